@@ -56,6 +56,11 @@ func sweepConsoleBounded(p *Prog, pc *PropConfig, tags string, r *checkResult) {
 	cmd := exec.Command("go", "test", "-overlay", of, "-vet=off", "-count=1", "-timeout", "300s", "-v", "-run", "TestVerifReplay$", ".")
 	cmd.Dir = p.Root
 	cmd.Env = append(os.Environ(), "GOFLAGS=-mod=mod", "GOPROXY=off", "GOSUMDB=off", "GOTOOLCHAIN=local")
+	if currentTier == "thorough" {
+		cmd.Env = append(cmd.Env, "VERIF_TIER=thorough")
+	} else {
+		cmd.Env = append(cmd.Env, "VERIF_TIER=quick")
+	}
 	var buf bytes.Buffer
 	cmd.Stdout = &buf
 	cmd.Stderr = &buf
@@ -103,6 +108,10 @@ func sweepConsoleBounded(p *Prog, pc *PropConfig, tags string, r *checkResult) {
 		r.errors = append(r.errors, "consolebounded: fewer than 4 result classes reported")
 	}
 	r.reports = append(r.reports, fr)
-	r.notes = append(r.notes, fmt.Sprintf("BOUNDED (not a proof): %d (event, configuration) cases through ConsoleWriter.Write against the reference renderer; bound: <= 3 fields from {\"\", a, b, error, z} plus a duplicated key, 12 value shapes, parts present/absent, 4 FieldsExclude x 4 FieldsOrder x 3 PartsExclude x 2 PartsOrder, colour off, default field formatters, transparent part formatters", cases))
+	bound := "<= 3 fields from {\"\", a, b, error, z}"
+	if currentTier == "thorough" {
+		bound = "<= 4 fields from {\"\", a, b, error, errors, z}"
+	}
+	r.notes = append(r.notes, fmt.Sprintf("BOUNDED (not a proof): %d (event, configuration) cases through ConsoleWriter.Write against the reference renderer; bound: "+bound+" plus a duplicated key, 12 value shapes, parts present/absent, 4 FieldsExclude x 4 FieldsOrder x 3 PartsExclude x 2 PartsOrder, colour off, default field formatters, transparent part formatters", cases))
 	r.trusted["C16: everything except needsQuote is checked by bounded enumeration only (labelled bounded, not counted as proved): default part formatters (time, level, caller, message), colours, TimeFormat/TimeLocation, custom formatters, events outside the bound"] = true
 }
